@@ -40,6 +40,46 @@ pub enum Enc {
   PatternDefault,
   /// "%p|%t|%m%n"
   PatternPlain,
+  /// a pattern generated from this number (see `pattern_of`): 2-7 segments over the supported
+  /// directives (%d %d{..} %p %l %t %m %T %X %X{k} %n %%; unknown letters are rejected by the configuration check), each with an optional
+  /// left / right padding width, and literals; exactly one %m
+  PatternGen(u32),
+}
+
+/// The pattern string of `Enc::PatternGen(seed)`. Literals avoid '#' (the record markers), '"' and
+/// '\\' (the pattern is embedded in a double-quoted YAML scalar).
+pub fn pattern_of(seed: u32) -> String {
+  let mut rng = Rng::new(0x9a77e2 ^ seed as u64);
+  let n = rng.range(1, 6) as usize;
+  let at = rng.below(n as u64 + 1) as usize;
+  let pad = |rng: &mut Rng| -> String {
+    if rng.chance(1, 2) {
+      String::new()
+    } else {
+      format!("{}{}", if rng.chance(1, 2) { "-" } else { "" }, *rng.pick(&[1u32, 3, 5, 8, 10, 12, 16, 20, 24, 40]))
+    }
+  };
+  let mut out = String::new();
+  for i in 0..=n {
+    if i == at {
+      out.push_str(&format!("%{}m", pad(&mut rng)));
+      continue;
+    }
+    match rng.below(13) {
+      0 => out.push_str(*rng.pick(&[" ", "|", "[", "]", " - ", ":", "é", "=", "<>", "日本"])),
+      1 => out.push_str("%%"),
+      2 => out.push_str(&format!("%{}d", pad(&mut rng))),
+      3 => out.push_str(&format!("%{}d{{%H:%M:%S}}", pad(&mut rng))),
+      4 | 5 => out.push_str(&format!("%{}p", pad(&mut rng))),
+      6 => out.push_str(&format!("%{}l", pad(&mut rng))),
+      7 | 8 => out.push_str(&format!("%{}t", pad(&mut rng))),
+      9 => out.push_str(&format!("%{}T", pad(&mut rng))),
+      10 => out.push_str(&format!("%{}X", pad(&mut rng))),
+      11 => out.push_str(&format!("%{}X{{k}}", pad(&mut rng))),
+      _ => out.push_str("%n"),
+    }
+  }
+  out
 }
 
 #[derive(Clone, Debug, Serialize, Deserialize, PartialEq)]
@@ -100,6 +140,7 @@ impl LogSc {
           Enc::JsonFlat => y.push_str("    encoder:\n      kind: json_lines\n      flatten_fields: true\n"),
           Enc::PatternDefault => y.push_str("    encoder:\n      kind: pattern\n"),
           Enc::PatternPlain => y.push_str("    encoder:\n      kind: pattern\n      pattern: \"%p|%t|%m%n\"\n"),
+          Enc::PatternGen(seed) => y.push_str(&format!("    encoder:\n      kind: pattern\n      pattern: \"{}\"\n", pattern_of(seed))),
         }
       }
     }
@@ -433,7 +474,7 @@ fn parse_sink(enc: Enc, bytes: &[u8], vs: &mut Vec<(String, String)>) -> Vec<Got
         }
       }
     }
-    Enc::PatternDefault | Enc::PatternPlain => {
+    Enc::PatternDefault | Enc::PatternPlain | Enc::PatternGen(_) => {
       // records may span lines (the message is reproduced verbatim): find the markers
       let mut rest = text.as_str();
       while let Some(p) = rest.find('#') {
@@ -473,6 +514,12 @@ pub fn evaluate(sc: &LogSc, h: &LHist, out: &RunOut) -> Vec<Violation> {
       extra.push(("where", f.location.clone()));
     }
     vs.push(mk("C19", class, &extra, format!("{} at {}", f.message, f.location)));
+    // a panic with an encoder in the pipeline also breaks "encoders are total" (C20): the panic
+    // location alone (often inside alloc / core) cannot tell the encoder from the rest
+    if f.kind == FailKind::Panic && sc.appenders.iter().any(|a| !a.custom) {
+      let encs: BTreeSet<String> = sc.appenders.iter().filter(|a| !a.custom).map(|a| format!("{:?}", a.enc).split('(').next().unwrap_or("").to_string()).collect();
+      vs.push(mk("C20", "panic_with_encoder_in_pipeline", &[("encoders", encs.into_iter().collect::<Vec<_>>().join("+")), ("where", f.location.clone())], format!("{} at {}", f.message, f.location)));
+    }
     return vs;
   }
   if let Some(e) = &h.build_error {
@@ -571,7 +618,7 @@ impl Family for LogFamily {
   }
 
   fn rule(&self) -> &'static str {
-    "one case = one generated configuration (root + 0-4 named loggers over a fixed name pool with prefix / non-prefix relations, levels off..trace, additive flags, wiring to 1-3 appenders: custom streams or byte appenders with json_lines / flattened json / default pattern / plain pattern encoders, capacities 1-64, block or drop overflow, optionally slow sinks) with 1-3 emitting threads x 1-5 events (via the log bridge or the tracing layer; 8 targets x 5 levels; messages with quotes, backslashes, newlines, control and non-ASCII characters), one consumer thread per custom stream, and shutdown(timeout) or guard drop after the emitters finished or after 0-40 yields; non-trivial = >=1 delivered record and >=2 emissions; distinct = distinct scheduler decision-trace hash"
+    "one case = one generated configuration (root + 0-4 named loggers over a fixed name pool with prefix / non-prefix relations, levels off..trace, additive flags, wiring to 1-3 appenders: custom streams or byte appenders with json_lines / flattened json / default pattern / plain pattern / generated pattern (2-7 segments over all directives with optional padding) encoders, capacities 1-64, block or drop overflow, optionally slow sinks) with 1-3 emitting threads x 1-5 events (via the log bridge or the tracing layer; 8 targets x 5 levels; messages with quotes, backslashes, newlines, control and non-ASCII characters), one consumer thread per custom stream, and shutdown(timeout) or guard drop after the emitters finished or after 0-40 yields; non-trivial = >=1 delivered record and >=2 emissions; distinct = distinct scheduler decision-trace hash"
   }
 
   fn needs_fresh_thread(&self) -> bool {
@@ -593,7 +640,13 @@ impl Family for LogFamily {
         custom: rng.chance(1, 2),
         capacity: *rng.pick(&[1usize, 1, 2, 4, 64]),
         block: rng.chance(3, 4),
-        enc: *rng.pick(&[Enc::Json, Enc::JsonFlat, Enc::PatternDefault, Enc::PatternPlain]),
+        enc: match rng.below(6) {
+          0 => Enc::Json,
+          1 => Enc::JsonFlat,
+          2 => Enc::PatternDefault,
+          3 => Enc::PatternPlain,
+          _ => Enc::PatternGen(rng.next_u64() as u32),
+        },
         slow: if rng.chance(1, 4) { rng.range(1, 3) as u8 } else { 0 },
         // (<= 15 events x 200 ms stays well inside the 5 s shutdown timeout)
         slow_ms: if self.faults && rng.chance(1, 4) { *rng.pick(&[60u16, 200]) } else { 0 },
